@@ -81,10 +81,39 @@ func RunC15(c *Ctx) {
 		var vr rjson.ValueReader
 		var keep []kept
 		prev := "start"
+		limitThemed := index%30 == 11
+		var prevDoc []byte
+		small := []string{"null", " null ", "{}", "[]", "[1]", `{"a":1}`, `{"a":1,"b":[true]}`, `{"a":1,"b":`, `[1,2,`, `"str"`, "12", `{"a":{"b":[]}}`, `[[],[[]]]`, "nul", ""}
 		for i := 0; i < n; i++ {
 			doc, dk := workload.HistDoc(r, c.Seed, i%9 == 4 && index%4 == 0)
 			fn := r.Intn(3)
-			if r.Intn(2) == 0 {
+			forced := false
+			switch {
+			case limitThemed && i%2 == 0:
+				// limit-themed history: small state-changing calls through all three methods (null
+				// rejections, empty and failing containers, wrong kinds) alternate with documents nested
+				// exactly at / around the limit (seeded change C15r3-m1 left the root depth counter
+				// stuck only after the 'null is not an array' exit)
+				doc, dk, forced = []byte(small[r.Intn(len(small))]), "small state-changing", true
+			case limitThemed:
+				d := []int{9999, 10000, 10001}[r.Intn(3)]
+				pat := workload.NestPatterns[r.Intn(12)]
+				doc, dk, forced = workload.BuildNest(pat, d, []string{"", "0"}[r.Intn(2)], d), "nest-at-limit", true
+			case prevDoc != nil && r.Intn(6) == 0:
+				// related documents: the previous document again with every key escaped one more level
+				// (so that the new raw key bytes equal nothing seen before but DECODE to the old raw
+				// bytes), followed next time by the original again; caches keyed on raw vs decoded names
+				// only go wrong on such pairs (seeded change C15r3-m2)
+				if rel, ok := escapeKeysOnce(prevDoc); ok {
+					doc, dk = rel, "previous document with keys escaped one more level"
+				}
+			case prevDoc != nil && r.Intn(7) == 0:
+				doc, dk = prevDoc, "previous document again"
+			}
+			prevDoc = doc
+			if forced {
+				fn = r.Intn(3)
+			} else if r.Intn(2) == 0 {
 				p := refmodel.SkipWS(doc, 0)
 				if p < len(doc) && doc[p] == '{' {
 					fn = 1
@@ -183,4 +212,46 @@ func RunC15(c *Ctx) {
 		c.Rec.R.Nontrivial++
 		runHistory(uint64(i), false)
 	}
+}
+
+// escapeKeysOnce rewrites a well-formed document so that every object key K (raw bytes R between
+// the quotes) becomes the key whose raw bytes are R with every backslash and quote escaped: the new
+// key DECODES to R. Reading the result and then the original presents, at every key position, a
+// name whose raw bytes equal the previous name's decoded bytes.
+func escapeKeysOnce(d []byte) ([]byte, bool) {
+	n, ok := refmodel.ParseValue(d)
+	if !ok {
+		return nil, false
+	}
+	type span struct{ a, b int }
+	var keys []span
+	var walk func(n *refmodel.Node)
+	walk = func(n *refmodel.Node) {
+		for i, e := range n.Elems {
+			if n.Kind == refmodel.KObject {
+				keys = append(keys, span{n.Keys[i].RawStart, n.Keys[i].RawEnd})
+			}
+			walk(e)
+		}
+	}
+	walk(n)
+	if len(keys) == 0 {
+		return nil, false
+	}
+	out := make([]byte, 0, len(d)+16)
+	last := 0
+	changed := false
+	for _, k := range keys {
+		out = append(out, d[last:k.a]...)
+		for _, ch := range d[k.a:k.b] {
+			if ch == '\\' || ch == '"' {
+				out = append(out, '\\')
+				changed = true
+			}
+			out = append(out, ch)
+		}
+		last = k.b
+	}
+	out = append(out, d[last:n.End]...)
+	return out, changed
 }
